@@ -272,7 +272,7 @@ func ruleC08Verbatim(c *Ctx) {
 		return
 	}
 	// the element of the footnote list reaches a print call unmodified
-	verbatim, seenElem := false, false
+	verbatim, seenElem, rewritten := false, false, false
 	for _, l := range loopsOf(str) {
 		for b := range l.Blocks {
 			for _, in := range b.Instrs {
@@ -297,11 +297,15 @@ func ruleC08Verbatim(c *Ctx) {
 					case *ssa.Call:
 						if q := calleeQ(&y.Call); strings.HasSuffix(q, ".WriteString") || q == "io.WriteString" {
 							verbatim = true
+						} else if bt, isStr := y.Type().Underlying().(*types.Basic); isStr && bt.Kind() == types.String {
+							rewritten = true // a string made from the footnote
 						}
 					case *ssa.BinOp:
 						if y.Op == token.ADD {
 							verbatim = true
 						}
+					case *ssa.Range:
+						rewritten = true // taken apart rune by rune
 					}
 				}
 			}
@@ -312,8 +316,10 @@ func ruleC08Verbatim(c *Ctx) {
 		c.notDecided(rule, "footnote-verbatim", str.Pos(), "the footnote list is not printed by a loop over its elements")
 	case verbatim:
 		c.hold(rule, "footnote-verbatim", str.Pos(), "each footnote is printed as it was recorded")
-	default:
+	case rewritten:
 		c.violate(rule, "footnote-verbatim", str.Pos(), fnName(str), "a footnote is rewritten before it is printed: the text shown no longer spells the path of the cited object")
+	default:
+		c.notDecided(rule, "footnote-verbatim", str.Pos(), "the way a footnote reaches the output is not one of the known forms")
 	}
 }
 
@@ -414,9 +420,15 @@ func ruleC14ConfigUnconditional(c *Ctx) {
 				}
 				// is a store of the option variable controlled by this comparison?
 				for _, iff := range c.ifsOn(cmp) {
-					for _, succ := range iff.Block().Succs {
+					for si, succ := range iff.Block().Succs {
 						if !edgeDominates(iff.Block(), succ, succ) {
 							continue
+						}
+						// a value that is rejected with an error is validated, not skipped
+						if other := iff.Block().Succs[1-si]; other != succ {
+							if isErr, _ := c.edgeLeavesWithError(iff.Block(), other); isErr {
+								continue
+							}
 						}
 						for b := range regionOfEdge(iff.Block(), succ) {
 							for _, ins := range b.Instrs {
